@@ -171,13 +171,17 @@ def props(u: Unit):
 # ---- data containers ------------------------------------------------------------------------------------------------
 DATA_REPLAY = lambda w: {"code": """
 import numpy as np, verif_probes as VP, itertools
-from pyxel.detectors import CCD, MKID, MKIDGeometry, Characteristics, Environment
+from pyxel.detectors import CCD, MKID, MKIDGeometry, CMOS, CMOSGeometry, APD, APDGeometry, APDCharacteristics, Characteristics, Environment
 VIOLATED, DETAIL = False, ''
 def mk(kind):
     if kind == 'MKID':
         return MKID(geometry=MKIDGeometry(row=2, col=3), environment=Environment(), characteristics=Characteristics())
+    if kind == 'CMOS':
+        return CMOS(geometry=CMOSGeometry(row=2, col=3), environment=Environment(), characteristics=Characteristics())
+    if kind == 'APD':
+        return APD(geometry=APDGeometry(row=2, col=3), environment=Environment(), characteristics=APDCharacteristics(roic_gain=0.8, avalanche_gain=2.0, pixel_reset_voltage=12.0))
     return VP.detector(rows=2, cols=3)
-for kind in ('CCD', 'MKID'):
+for kind in ('CCD', 'MKID', 'CMOS', 'APD'):
     names = ['photon', 'pixel', 'signal', 'image'] + (['phase'] if kind == 'MKID' else [])
     for r in range(len(names) + 1):
         for subset in itertools.combinations(names, r):
@@ -198,16 +202,20 @@ for kind in ('CCD', 'MKID'):
 
 def mk_full_detector(ex, u, kind):
     """Detector with real property objects and buckets whose presence is symbolic."""
-    det = D.mk_detector(ex, u, prior="arbitrary", cls_qual=f"{DET}ccd/ccd.py::CCD" if kind == "CCD" else f"{DET}mkid/mkid.py::MKID")
+    sub = kind.lower()
+    det = D.mk_detector(ex, u, prior="arbitrary", cls_qual=f"{DET}{sub}/{sub}.py::{kind}")
     st = ex.st
     w = u.world
     geo = st.cell(ex.det_parts["geo"])
-    gcls = w.cls(f"{DET}ccd/ccd_geometry.py::CCDGeometry") if kind == "CCD" else w.cls(f"{DET}mkid/mkid_geometry.py::MKIDGeometry")
+    gcls = w.cls(f"{DET}{sub}/{sub}_geometry.py::{kind}Geometry")
     geo.cls = gcls
     geo.fields.update({"_total_thickness": NONE, "_pixel_vert_size": NONE, "_pixel_horz_size": NONE, "_pixel_scale": NONE, "_numbytes": VInt(0)})
     env = st.alloc(HObj(w.cls(f"{DET}environment.py::Environment"), {"_temperature": NONE, "_wavelength": NONE, "_numbytes": VInt(0)}))
-    cht = st.alloc(HObj(w.cls(f"{DET}characteristics.py::Characteristics"), {k: NONE for k in ("_quantum_efficiency", "_charge_to_volt_conversion", "_pre_amplification",
-                                                                                               "_full_well_capacity", "_adc_bit_resolution", "_adc_voltage_range")}))
+    if kind == "APD":
+        cht = st.alloc(HObj(w.cls(f"{DET}apd/apd_characteristics.py::APDCharacteristics"), {"_roic_gain": VFloat(0.8)}))      # its own round trip: props.roundtrip[APDCharacteristics]
+    else:
+        cht = st.alloc(HObj(w.cls(f"{DET}characteristics.py::Characteristics"), {k: NONE for k in ("_quantum_efficiency", "_charge_to_volt_conversion", "_pre_amplification",
+                                                                                                   "_full_well_capacity", "_adc_bit_resolution", "_adc_voltage_range")}))
     d = st.cell(det)
     d.fields.update({"_environment": env, "_characteristics": cht, "_scene": NONE,
                      "_data": VOpaque("xr", st.fresh_int("data"), {"label": "processed_data", "truthy": True})})
@@ -232,6 +240,11 @@ def data_unit(kind, qual):
         cfg.lib_overrides[("getitem", "df")] = lambda ex, obj, idx, fr: obj      # new_frame[previous_frame.columns]: same rows
         base_attr = cfg.lib_overrides[("opaque_attr", "df")]
         cfg.lib_overrides[("opaque_attr", "df")] = lambda ex, obj, name, fr: VOpaque("xr", None, {"label": "columns"}) if name == "columns" else base_attr(ex, obj, name, fr)
+        if kind == "APD":
+            aq = f"{DET}apd/apd_characteristics.py::APDCharacteristics"
+            aci = u.cls(aq)
+            cfg.contracts[aq + ".to_dict"] = Contract(aq + ".to_dict", lambda ex, args, kwargs, fr: ex.st.alloc(HDict([(VStr("roic_gain"), VFloat(0.8))])), "C18.props.roundtrip[APDCharacteristics]")
+            cfg.contracts[aq + ".from_dict"] = Contract(aq + ".from_dict", lambda ex, args, kwargs, fr: ex.st.alloc(HObj(aci, {"_roic_gain": VFloat(0.8)})), "C18.props.roundtrip[APDCharacteristics]")
         buckets = ["photon", "pixel", "signal", "image"] + (["phase"] if kind == "MKID" else [])
         base_call = cfg.lib_overrides[("call", "xr")]
         # processed data / scene trees are boundaries: their dict form is modelled as empty (not part of these obligations)
@@ -274,6 +287,8 @@ def data_unit(kind, qual):
 
 unit("C18", "data.CCD")(data_unit("CCD", f"{DET}ccd/ccd.py::CCD"))
 unit("C18", "data.MKID")(data_unit("MKID", f"{DET}mkid/mkid.py::MKID"))
+unit("C18", "data.CMOS")(data_unit("CMOS", f"{DET}cmos/cmos.py::CMOS"))
+unit("C18", "data.APD")(data_unit("APD", f"{DET}apd/apd.py::APD"))
 
 
 # ---- load / save models -----------------------------------------------------------------------------------------------
